@@ -187,6 +187,7 @@ def obligations(ctx):
     dedup_notions(ctx)
     preimage_layout(ctx)
     aux_data_hash(ctx)
+    language_views(ctx)
 
 
 def dedup_notions(ctx):
@@ -378,3 +379,115 @@ def aux_data_hash(ctx):
     if nok < 4:
         ob.fail("only %d Ok paths (expected both entries x auxiliary data present / absent)" % nok)
     ob.finish(E)
+
+
+def language_views(ctx):
+    """'the language views of exactly the Plutus versions in use', in the ledger's peculiar encoding: a map whose keys are in
+    canonical order (shorter encoded key first: 01 for V2, 02 for V3, then the byte string 41 00 for V1); a V2 / V3 entry is
+    `version => [costs]` (definite list), the V1 entry is `bytes(cbor(0)) => bytes(cbor(indefinite list of costs))`.
+    Costmdls::language_views_encoding is executed from MIR over the token model for every non-empty subset of {V1, V2, V3} with
+    two symbolic costs per model; byte lengths of the small nested encodings are computed from their tokens."""
+    import itertools
+    import cbormodel as CM
+    P = ctx.P
+    ob = Obligation(ctx, "c09_e2_language_views_encoding", "every non-empty subset of {PlutusV1, PlutusV2, PlutusV3}; 2 costs per model, each any integer of 0..2^63",
+                    ["Costmdls::language_views_encoding"], fallback_native="e2n_c09_battery")
+    agg = Engine(P)
+    KINDS = ["PlutusV1", "PlutusV2", "PlutusV3"]
+    def head(n):
+        return 1 if n < 24 else 2 if n < 256 else 3 if n < 65536 else 5
+    def size_of(E_, toks):
+        """byte size of a token list whose sizes are known (small concrete heads, nested byte strings with known content)"""
+        n = 0
+        for t in toks:
+            if t[0] in ("uint",) and E_.concretize(t[1]) is not None:
+                n += head(E_.concretize(t[1]))
+            elif t[0] == "bytes":
+                inner = E_.__dict__.get("nested_cbor", {}).get(str(t[1]))
+                if inner is None:
+                    return None
+                k = size_of(E_, inner)
+                if k is None:
+                    return None
+                n += head(k) + k
+            else:
+                return None
+        return n
+    for r in (1, 2, 3):
+        for langs in itertools.combinations(KINDS, r):
+            E = Engine(P, max_loop=12)
+            E.U = agg.U
+            def lang_bytes(E_, c, a):
+                # Language::to_bytes = cbor(version index): one small unsigned integer (registered before the generic "opaque bytes of a value" model)
+                l_ = VM.deref(E_, a[0])
+                k_ = VM.deref(E_, l_.fields[0]).variant if isinstance(l_, VStruct) else None
+                if k_ not in KINDS:
+                    return NotImplemented
+                o_ = VOpaque("cbor_bytes", [], z3.FreshConst(E_.U, "cbor_bytes"))
+                E_.__dict__.setdefault("nested_cbor", {})[str(o_.t)] = [("uint", z3.IntVal(KINDS.index(k_)))]
+                return o_
+            E.extra_intrinsics[r"Language::to_bytes$"] = lang_bytes
+            CM.install(E, inline_types=("Language", "CostModel", "Int"), target="Costmdls")
+            costs = {k: [E.sym_int("cost_%s_%d" % (k, i), "i128") for i in range(2)] for k in langs}
+            for k in langs:
+                for c_ in costs[k]:
+                    E.assume(z3.And(c_.t >= 0, c_.t < (1 << 63)))
+            def blen(E_, c, a):
+                b = VM.deref(E_, a[0])
+                if isinstance(b, VOpaque) and b.t is not None:
+                    toks = E_.__dict__.get("nested_cbor", {}).get(str(b.t))
+                    if toks is not None:
+                        k = size_of(E_, toks)
+                        if k is not None:
+                            return VInt(z3.IntVal(k), "usize")
+                return NotImplemented
+            E.extra_intrinsics[r"Vec::<u8>::len$"] = blen
+            def mk(E=E, langs=langs, costs=costs):
+                m = VSeq([VStruct("()", [VStruct("Language", [VEnum("LanguageKind", k, [])]), VStruct("CostModel", [VSeq([VStruct("Int", [VInt(c_.t, "i128")]) for c_ in costs[k]], "vec")])]) for k in langs], "map")
+                return [R(VStruct("Costmdls", [m]), "self")]
+            try:
+                outs = E.explore("Costmdls::language_views_encoding", mk, max_paths=200)
+            except Unsupported as e:
+                ob.fail("%s: cannot be executed (%s)" % (list(langs), str(e)[:200])); continue
+            rets = [o for o in outs if o.kind == "return"]
+            for o in outs:
+                if o.kind != "return":
+                    ob.vc("%s: no panic (%s %s)" % (list(langs), o.kind, o.msg[:80]), o.pc, z3.BoolVal(False))
+            if len(rets) != 1:
+                ob.violation("%s: the encoding is not a function of the cost models (%d ways: the key order depends on something else)" % (list(langs), len(rets))); continue
+            o = rets[0]
+            E.enter(o)
+            tab = E.__dict__.get("nested_cbor", {})
+            toks = tab.get(str(o.value.t)) if isinstance(o.value, VOpaque) else None
+            if toks is None:
+                ob.fail("%s: result is not a finished serializer buffer" % (list(langs),)); continue
+            order = [k for k in ("PlutusV2", "PlutusV3", "PlutusV1") if k in langs]
+            want, eqs = [("map", len(langs))], []
+            pos = 1
+            shape_ok = toks[:1] == [("map", len(langs))] or (toks and toks[0][0] == "map" and toks[0][1] == len(langs))
+            for k in order:
+                if k == "PlutusV1":
+                    seg = toks[pos:pos + 2]
+                    if len(seg) != 2 or seg[0][0] != "bytes" or seg[1][0] != "bytes":
+                        shape_ok = False; break
+                    kt, vt = tab.get(str(seg[0][1])), tab.get(str(seg[1][1]))
+                    if not kt or len(kt) != 1 or kt[0][0] != "uint" or E.concretize(kt[0][1]) != 0:
+                        ob.violation("%s: the PlutusV1 key is not the byte string holding cbor(0): %r" % (list(langs), kt)); shape_ok = None; break
+                    if not vt or [t[0] for t in vt] != ["array", "uint", "uint", "special"] or vt[0][1] is not None:
+                        ob.violation("%s: the PlutusV1 cost model is not a byte string holding an indefinite-length list: %s" % (list(langs), [(t[0], t[1]) for t in (vt or [])][:2])); shape_ok = None; break
+                    eqs += [vt[1][1] == costs[k][0].t, vt[2][1] == costs[k][1].t]
+                    pos += 2
+                else:
+                    seg = toks[pos:pos + 4]
+                    if [t[0] for t in seg] != ["uint", "array", "uint", "uint"] or seg[1][1] != 2:
+                        shape_ok = False; break
+                    eqs += [seg[0][1] == (1 if k == "PlutusV2" else 2), seg[2][1] == costs[k][0].t, seg[3][1] == costs[k][1].t]
+                    pos += 4
+            if shape_ok is None:
+                continue
+            if not shape_ok or pos != len(toks):
+                ob.violation("%s: the language views are %s, the ledger's form is a map with the entries of %s in that order (V2 / V3: version => definite list; V1: bytes => bytes)" %
+                             (list(langs), [(t[0], t[1] if t[0] in ("map", "array") else "") for t in toks], order)); continue
+            ob.vc("%s: keys and costs are the versions' own, in canonical key order" % (list(langs),), o.pc, z3.And(eqs))
+            agg.stats["paths"] += E.stats["paths"]; agg.stats["feasibility_queries"] += E.stats["feasibility_queries"]; agg.stats["functions"] |= E.stats["functions"]
+    ob.finish(agg, lambda m, info=None: ("e2n_c09_battery", []))
